@@ -782,7 +782,12 @@ class DateTime(datetime.datetime, Date):
             raise ValueError(f'Invalid unit "{unit}" for start_of()')
 
         if unit in ("second", "minute", "hour"):
-            return cast("Self", getattr(self, f"_start_of_{unit}")())
+            # The fold of the instance selects the occurrence of a repeated
+            # time, but a skipped start is always resolved forward.
+            dt = getattr(self, f"_start_of_{unit}")()
+            forward = getattr(self.replace(fold=1), f"_start_of_{unit}")()
+
+            return cast("Self", dt if dt.naive() == forward.naive() else forward)
 
         # The start of a day (or of a larger unit) does not depend on the fold
         # of the instance: a skipped boundary is resolved forward,
@@ -812,7 +817,12 @@ class DateTime(datetime.datetime, Date):
             raise ValueError(f'Invalid unit "{unit}" for end_of()')
 
         if unit in ("second", "minute", "hour"):
-            return cast("Self", getattr(self, f"_end_of_{unit}")())
+            # The fold of the instance selects the occurrence of a repeated
+            # time, but a skipped end is always resolved backward.
+            dt = getattr(self, f"_end_of_{unit}")()
+            backward = getattr(self.replace(fold=0), f"_end_of_{unit}")()
+
+            return cast("Self", dt if dt.naive() == backward.naive() else backward)
 
         # The end of a day (or of a larger unit) does not depend on the fold
         # of the instance: a skipped boundary is resolved backward,
